@@ -349,6 +349,7 @@ contract(
               "self._s.h1.blocks": T.plist(), "self.page.h0": T.opt(H1T)},
     ensures={
         "fresh-empty-block": "self._s.block is not None and self._s.block.notes == []",
+        "implicit-section-exists-when-no-section-is-open": "self._s.h4 is not None or self._s.h3 is not None or self._s.h2 is not None or self._s.h1 is not None or self.page.h0 is not None",
         "attached-to-deepest-open-section": "plist_last(deepest(self).blocks) is self._s.block",
         "nothing-else-attached": "all_other_blocklists_unchanged(self, old(self))",
     },
@@ -556,6 +557,25 @@ contract(
         "defaults-restored": "self._s.todo_priority == DEFAULT_PRIORITY and self._s.todo_status == NoteType.OPEN_TODO",
     },
 )
+
+
+def _exit_effects(interp, loc, old):
+    """Call-site form of `emits-iff` for the exit listeners (same shape as _add_note's)."""
+    from engine import spec as S_
+    from engine import sym
+    from engine.interp import _as_term
+
+    c = _REG[M + "exitBase_note"]
+    t = S_.eval_clause(interp, c, "emits(self, ctx.note_body())", old, old, None)
+    if interp.ctx.branch(_as_term(t), "exit listener emits"):
+        note = NOTE_T.fresh(interp.ctx, "note")
+        blk = sym.force(interp.ctx, loc["self"].fields["_s"].fields["block"])
+        blk.fields["notes"].tail.append(note)
+
+
+for _k in ("exitBase_note", "exitBase_todo"):
+    _REG[M + _k]["effects"] = _exit_effects
+    _REG[M + _k]["havoc_skip"] = ("self._s.block.notes",)
 
 
 # ---- enterInline_prop: only the property stores may change (string surgery on the token text is outside the VC generator) ----
